@@ -122,4 +122,10 @@ def judge (_id : String) (lines : Array String) : Verdict := Id.run do
 
 end Kap.C09.Drv
 
-def main : IO Unit := Kap.driverMain (fun id ls => if id.startsWith "s" then Kap.C09.SvcDrv.judge id ls else Kap.C09.Drv.judge id ls)
+/-- service-layer cases are recognised by their ops (srec/sreg/sdereg/supd/scollect) -/
+def isSvc (ls : Array String) : Bool :=
+  ls.any (fun l => match Kap.tokens l with
+    | t :: _ => t == "srec" || t == "sreg" || t == "sdereg" || t == "supd" || t == "scollect"
+    | [] => false)
+
+def main : IO Unit := Kap.driverMain (fun id ls => if isSvc ls then Kap.C09.SvcDrv.judge id ls else Kap.C09.Drv.judge id ls)
